@@ -53,10 +53,10 @@ fn main() {
         name: "w1n",
         run,
         properties: vec![
-            p("C19", 40_000, 1_500_000, "one run = one swarm-configured history of 1-4 NTS sessions (v4/v5, both AEADs, 0-7 placeholders, extra fields, stock and hand-built layouts) against 1-2 real servers with key rotations, partitions and network damage; every server answer is judged against the request's ground truth at delivery time"),
-            p("C23", 40_000, 1_500_000, "as C19 with the damage and adversary rates turned up; every datagram is delivered to the receiving node's real receive path (server keyset / NTS session key / no key) under catch_unwind, extended datagrams additionally un-truncated (<= 4096 bytes) to NtpPacket::deserialize in the receiver's key context"),
+            p("C19", 200_000, 1_500_000, "one run = one swarm-configured history of 1-4 NTS sessions (v4/v5, both AEADs, 0-7 placeholders, extra fields, stock and hand-built layouts) against 1-2 real servers with key rotations, partitions and network damage; every server answer is judged against the request's ground truth at delivery time"),
+            p("C23", 200_000, 1_500_000, "as C19 with the damage and adversary rates turned up; every datagram is delivered to the receiving node's real receive path (server keyset / NTS session key / no key) under catch_unwind, extended datagrams additionally un-truncated (<= 4096 bytes) to NtpPacket::deserialize in the receiver's key context"),
             c25,
-            p("C26", 40_000, 1_500_000, "as C19 with stale_key_count in {0,1,2,5}, clients partitioned for 0..history+3 rotations presenting old cookies, a cookie ledger decoded against the real key set after every rotation, per-position cookie tampering and foreign key sets"),
+            p("C26", 200_000, 1_500_000, "as C19 with stale_key_count in {0,1,2,5}, clients partitioned for 0..history+3 rotations presenting old cookies, a cookie ledger decoded against the real key set after every rotation, per-position cookie tampering and foreign key sets"),
         ],
         real_components: &[
             "ntp_proto::Server::handle (policy, NTS decode, NAK/DENY/time responses, cookie generation)",
